@@ -137,32 +137,15 @@ def check_dispatch_model(ctx, sc):
 
 
 def check_dispatch_proof(ctx, sc):
-    """TLAPS: the rank theorem of the dispatch walk for ALL frames (spec/proofs/DecoderSMProofs.tla).  Reported in the
-    evidence; a prover that is missing or runs out of time is noted, not fatal (TLC checks the same on the bounded model);
-    a proof obligation that FAILS is a machinery failure: the specification and its proof have drifted apart."""
-    import shutil
-    import time
-    d = sc.file('tlaps')
-    os.makedirs(d, exist_ok=True)
-    shutil.copy(os.path.join(tlc.SPEC, 'DecoderSM.tla'), d)
-    shutil.copy(os.path.join(tlc.SPEC, 'proofs', 'DecoderSMProofs.tla'), d)
-    t0 = time.time()
-    try:
-        p = subprocess.run(['tlapm', '--cleanfp', 'DecoderSMProofs.tla'], cwd=d, stdout=subprocess.PIPE, stderr=subprocess.STDOUT,
-                           text=True, timeout=900)
-        out = p.stdout
-    except (OSError, subprocess.TimeoutExpired) as e:
-        ctx.extra['tlaps'] = 'not discharged in this run (%s)' % type(e).__name__
-        return
-    import re
-    m = re.search(r'All (\d+) obligations? proved', out)
-    if m:
-        ctx.extra['tlaps'] = ('RankStrictlyIncreases and RankBounded proved by tlapm for all frames (%s obligations, %.0f s): '
-                              'a frame of the dispatch walk takes at most 7 steps' % (m.group(1), time.time() - t0))
-    elif re.search(r'obligations? failed', out):
-        raise core.Machinery('TLAPS: proof obligations of DecoderSMProofs failed:\n' + out[-1500:])
+    """TLAPS: the rank theorem of the dispatch walk for ALL frames (spec/proofs/DecoderSMProofs.tla)"""
+    st, x, secs = tlc.tlaps(sc, 'DecoderSMProofs', ['DecoderSM'])
+    if st == 'proved':
+        ctx.extra['tlaps'] = ('RankStrictlyIncreases and RankBounded proved by tlapm for all frames (%d obligations, %.0f s): '
+                              'a frame of the dispatch walk takes at most 7 steps' % (x, secs))
+    elif st == 'failed':
+        raise core.Machinery('TLAPS: proof obligations of DecoderSMProofs failed:\n' + x)
     else:
-        ctx.extra['tlaps'] = 'not discharged in this run: ' + out[-200:].replace('\n', ' ')
+        ctx.extra['tlaps'] = 'not discharged in this run (%s)' % x
 
 
 def dispatch_part(ctx, sc, rnd, jobs, labels, picked):
